@@ -45,6 +45,7 @@ inline long run_default(const std::function<void()>& body, int horizon = 2000000
     sh->user[1] = delay_mode ? 1 : 0;
     sh->user[2] = 1;
     sh->user[3] = 0;
+    sh->user[4] = 0;
     vs_begin(sh);
     body();
     vs_end();
